@@ -112,6 +112,8 @@ class World:
         self.markers = {}
         self.attrs = {}
         self.ids = []
+        self.focus = None        # (side, key) of an order being worked on repeatedly
+        self.focus_left = 0
         self.accounts = []
 
     # ------------------------------------------------------------------ plumbing
@@ -248,9 +250,10 @@ class World:
         base = rng.choice([c.base] * 3 + c.conv) if c.conv else c.base
         size = c.increment * self.lots()
         nid = rng.choice(list(self.bids)) if self.bids and rng.random() < 0.06 else new_uuid(rng)
-        return dict(kind="create_ask", sender=rng.choice(self.accounts), id=nid, base=base,
-                    quote=rng.choice(c.quotes), price=price_str(self.units(), c.precision, rng), size=size,
-                    funds=[] if self.restricted(base) else [(size, base)])
+        return self.maybe_reuse_id(
+            dict(kind="create_ask", sender=rng.choice(self.accounts), id=nid, base=base,
+                 quote=rng.choice(c.quotes), price=price_str(self.units(), c.precision, rng), size=size,
+                 funds=[] if self.restricted(base) else [(size, base)]), "ask")
 
     def r_create_bid(self):
         c, rng = self.cfg, self.rng
@@ -267,9 +270,17 @@ class World:
                     fee = (f, quote)
         due = total + (fee[0] if fee else 0)
         nid = rng.choice(list(self.asks)) if self.asks and rng.random() < 0.06 else new_uuid(rng)
-        return dict(kind="create_bid", sender=rng.choice(self.accounts), id=nid, base=c.base,
-                    fee=fee, price=price_str(u, c.precision, rng), quote=quote, quote_size=total, size=size,
-                    funds=[] if self.restricted(quote) else [(due, quote)])
+        return self.maybe_reuse_id(
+            dict(kind="create_bid", sender=rng.choice(self.accounts), id=nid, base=c.base,
+                 fee=fee, price=price_str(u, c.precision, rng), quote=quote, quote_size=total, size=size,
+                 funds=[] if self.restricted(quote) else [(due, quote)]), "bid")
+
+    def maybe_reuse_id(self, r, side):
+        """an otherwise valid creation under the id of an order already open on the same side"""
+        book = self.asks if side == "ask" else self.bids
+        if book and self.rng.random() < 0.05:
+            r["id"] = self.rng.choice(list(book))
+        return r
 
     def r_approve(self):
         c, rng = self.cfg, self.rng
@@ -306,7 +317,7 @@ class World:
             a, b = rng.choice(pairs)
         else:
             a, b = rng.choice(asks), rng.choice(bids)
-        m = min(a.size, b.rem_base)
+        m = max(0, min(a.size, b.rem_base))      # ill-formed seeded logs can leave a negative remainder
         r = rng.random()
         if r < 0.55 or m <= 1:
             size = m
@@ -358,7 +369,7 @@ class World:
         if not book:
             return None
         o = rng.choice(book)
-        rem = o.size if side == "ask" else o.rem_base
+        rem = max(0, o.size if side == "ask" else o.rem_base)
         kind = rng.choice(["reject", "reject", "reject", "expire", "cancel"])
         if kind == "cancel":
             return dict(kind="cancel_" + side, sender=o.owner, id=o.key, funds=[])
@@ -378,6 +389,65 @@ class World:
         else:
             size = rem + c.increment
         return dict(kind="reject_" + side, sender=sender, id=o.key, size=size, funds=[])
+
+    # ------------------------------------------------------------------ repeated partial operations on one order
+    def pick_focus(self):
+        c, rng = self.cfg, self.rng
+        bids = [("bid", b.key) for b in self.bids.values() if isinstance(b, fmt.Bid) and b.rem_base >= 3 * c.increment]
+        feeb = [x for x in bids if self.bids[x[1]].fee]
+        asks = [("ask", a.key) for a in self.asks.values() if a.size >= 3 * c.increment]
+        pool = feeb * 3 + bids + asks
+        if pool:
+            self.focus = rng.choice(pool)
+            self.focus_left = rng.randint(3, 7)
+
+    def r_focus(self):
+        """a small partial reject or partial fill of the order in focus (histories in which the same order is
+        consumed in many steps: rounding of pro-rata fees compounds, remainders leave the lot grid, ...)"""
+        c, rng = self.cfg, self.rng
+        side, key = self.focus
+        o = (self.asks if side == "ask" else self.bids).get(key)
+        if o is None or (side == "bid" and not isinstance(o, fmt.Bid)):
+            self.focus_left = 0
+            return None
+        rem = max(0, o.size if side == "ask" else o.rem_base)
+        lots = rem // c.increment
+        ex = rng.choice(c.executors) if c.executors else rng.choice(self.accounts)
+        small = c.increment * rng.randint(1, max(1, lots // 3))
+        if rng.random() < 0.5:
+            return dict(kind="reject_" + side, sender=ex, id=key, size=min(small, rem) if rng.random() < 0.9 else rem, funds=[])
+        # a partial fill against any crossing counter-order
+        if side == "bid":
+            pb = parse_dec(o.price)
+            cands = [a for a in self.asks.values() if a.quote == o.quote_denom and a.cls[0] != "pending" and
+                     parse_dec(a.price) is not None and pb is not None and parse_dec(a.price) <= pb]
+            if not cands:
+                return dict(kind="reject_bid", sender=ex, id=key, size=min(small, rem), funds=[])
+            a = rng.choice(cands)
+            b = o
+        else:
+            pa = parse_dec(o.price)
+            cands = [b for b in self.bids.values() if isinstance(b, fmt.Bid) and b.quote_denom == o.quote and
+                     parse_dec(b.price) is not None and pa is not None and pa <= parse_dec(b.price)]
+            if not cands or o.cls[0] == "pending":
+                return dict(kind="reject_ask", sender=ex, id=key, size=min(small, rem), funds=[])
+            a = o
+            b = rng.choice(cands)
+        m = max(0, min(a.size, b.rem_base))
+        size = min(small, m)
+        r = rng.random()
+        if r < 0.2:
+            size = m                                  # exactly what is left of one of them
+        elif r < 0.45 and m > 1:
+            # off the lot grid: the smallest grid on which one limit price times the size is whole, or anything
+            import math
+            pv = parse_dec(rng.choice([a.price, b.price]))
+            g = 10 ** c.precision
+            if pv is not None and pv > 0 and (pv * g).denominator == 1:
+                g = g // math.gcd(int(pv * g), g)
+            size = g * rng.randint(1, max(1, min(m // g, 7))) if m >= g and rng.random() < 0.8 else rng.randint(1, m)
+        return dict(kind="execute_match", sender=ex, ask_id=a.key, bid_id=b.key, price=rng.choice([a.price, b.price]),
+                    size=size, funds=[])
 
     def r_modify(self):
         c, rng = self.cfg, self.rng
@@ -405,6 +475,10 @@ class World:
             return rng.choice([(None, "alice"), ("0.1", None), ("abc", "alice"), ("0.1", "X"), ("", "alice")])
         afr, afa = pair(c.ask_fee)
         bfr, bfa = pair(c.bid_fee)
+        if rng.random() < 0.08 and c.bid_fee:
+            afr, afa = rng.choice([c.bid_fee[1], c.bid_fee[1] + ("0" if "." in c.bid_fee[1] else ".0")]), (c.ask_fee[0] if c.ask_fee else rng.choice(self.accounts))
+        if rng.random() < 0.08 and c.ask_fee:
+            bfr, bfa = rng.choice([c.ask_fee[1], c.ask_fee[1] + ("0" if "." in c.ask_fee[1] else ".0")]), (c.bid_fee[0] if c.bid_fee else rng.choice(self.accounts))
         aat = maybe(lambda: rng.choice([[], ["kyc"], ["acc"]]), 0.2)
         bat = maybe(lambda: rng.choice([[], ["kyc"], ["buy"]]), 0.2)
         sender = rng.choice(c.executors) if c.executors and rng.random() < 0.9 else rng.choice(self.accounts)
@@ -512,11 +586,21 @@ class World:
             self.send(rng.choice(["QUERY get_ask " + enc(i), "QUERY get_bid " + enc(i),
                                   "QUERY get_contract_info", "QUERY get_version_info"]))
             return
-        r = {"create_ask": self.r_create_ask, "create_bid": self.r_create_bid, "approve": self.r_approve,
-             "match": self.r_match, "reverse": self.r_reverse, "modify": self.r_modify}[kind]()
+        r = None
+        focused = False
+        if self.focus_left > 0:
+            self.focus_left -= 1
+            if rng.random() < 0.8:
+                r = self.r_focus()
+                focused = r is not None
+        elif rng.random() < 0.08:
+            self.pick_focus()
+        if r is None:
+            r = {"create_ask": self.r_create_ask, "create_bid": self.r_create_bid, "approve": self.r_approve,
+                 "match": self.r_match, "reverse": self.r_reverse, "modify": self.r_modify}[kind]()
         if r is None:
             return
-        if rng.random() < 0.22:
+        if rng.random() < (0.05 if focused else 0.22):
             r = self.mutate(r)
             if rng.random() < 0.15:
                 r = self.mutate(r)
@@ -574,7 +658,10 @@ def migration_history(w, hn):
     w.send("SEEDCFG %s ~ base %s qa %s %s %s %s [] [] %d %d" % (
         enc("ats"), "cva", lst(w.accounts[:1]), lst(w.accounts[1:2]), askfee, bidfee, p, inc))
     if rng.random() < 0.93:
-        w.send("SEEDVER %s %s" % (enc("ats_smart_contract"), enc(rng.choice(VERSIONS))))
+        # half of the migration histories start inside the conversion window; the others at and around every
+        # threshold and at malformed version strings
+        ver = rng.choice(["0.16.2", "0.16.3", "0.17.0", "0.18.2", "0.19.0"]) if rng.random() < 0.5 else rng.choice(VERSIONS)
+        w.send("SEEDVER %s %s" % (enc("ats_smart_contract"), enc(ver)))
     # seeded orders, some under legacy un-hyphenated ids
     for _ in range(rng.randint(0, 3)):
         i = new_uuid(rng)
@@ -611,7 +698,7 @@ def migration_history(w, hn):
             keep = rhu(Fraction(feeamt) * Fraction(total - sq - q_, total)) if feeamt else 0
             f_ = (feeamt - sf) - keep
             ff = str(f_) if (feeamt and (f_ > 0 or rng.random() < 0.3)) else "-"
-            evs.append("%s:%d:%d:%s" % (rng.choice("FJ"), b_, q_, ff))
+            evs.append("%s:%d:%d:%s" % (rng.choice("FJJ"), b_, q_, ff))
             sb += b_; sq += q_; sf += f_ if ff != "-" else 0
         if rng.random() < 0.15:
             evs.append("R:%d:-" % 0)
@@ -664,9 +751,18 @@ def migration_history(w, hn):
             w.send("PEXEC %s [] cancel_bid %s" % (enc(bd.owner), enc(k)))
             w.send("PEXEC %s [] expire_bid %s" % (enc(ex), enc(k)))
     for _ in range(rng.randint(5, 25)):
-        w.step()
+        safe_step(w, stats=w.stats)
     if rng.random() < 0.3:
         w.send("MIGRATE " + migline())
+
+
+def safe_step(w, stats):
+    """one generator step; a slip of the generator itself on an odd state (never of the harness: I/O errors
+    propagate) skips the step and is counted, so that it cannot take a whole check down"""
+    try:
+        w.step()
+    except (ValueError, IndexError, KeyError, ZeroDivisionError, TypeError, AttributeError):
+        stats[("GENERATOR-SKIP", "-")] = stats.get(("GENERATOR-SKIP", "-"), 0) + 1
 
 
 def main():
@@ -676,7 +772,7 @@ def main():
     ap.add_argument("--shard", type=int, default=0)
     ap.add_argument("--histories", type=int, default=10)
     ap.add_argument("--steps", type=int, default=40)
-    ap.add_argument("--mig-share", type=float, default=0.15)
+    ap.add_argument("--mig-share", type=float, default=0.2)
     ap.add_argument("--out", required=True)
     ap.add_argument("--stats")
     a = ap.parse_args()
@@ -695,7 +791,7 @@ def main():
                 w.markers, w.attrs = {}, {}
             n = rng.randint(max(5, a.steps // 3), a.steps)
             for _ in range(n):
-                w.step()
+                safe_step(w, stats)
         impl.close()
     if a.stats:
         with open(a.stats, "w") as f:
